@@ -867,6 +867,11 @@ func (env *SpecEnv) evalCall(x *SExpr) Value {
 		fv := env.selectField(v, "closeOnce")
 		env.e.declareFun("fptr", []Sort{SInt, SInt}, SInt)
 		return Value{T: tRef, L: []Term{App(SInt, "fptr", fv.P.Base, IntLit(int64(env.e.pathID(placeKeyOnly(fv.P)))))}}
+	case "lockid":
+		if args[0].Op != "str" {
+			specFail("lockid wants a lock class name")
+		}
+		return intV(IntLit(int64(env.e.pathID(args[0].Name))))
 	case "atomicbool":
 		// value of a sync/atomic.Bool (by address)
 		v := ev(0)
